@@ -41,6 +41,15 @@ pub proof fn lemma_suffix_trans(a: Seq<char>, b: Seq<char>, c: Seq<char>)
     assert(a.skip(k1).skip(k2) =~= a.skip(k1 + k2));
 }
 pub proof fn lemma_suffix_refl(a: Seq<char>) ensures suffix(a, a) { assert(a.skip(0) =~= a); }
+pub broadcast proof fn lemma_suffix_trans_b(a: Seq<char>, b: Seq<char>, c: Seq<char>)
+    requires #[trigger] suffix(a, b), #[trigger] suffix(b, c) ensures suffix(a, c)
+{ lemma_suffix_trans(a, b, c); }
+pub broadcast proof fn lemma_suffix_len(a: Seq<char>, b: Seq<char>)
+    requires #[trigger] suffix(a, b) ensures utf8len(b) <= utf8len(a)
+{
+    let k = choose|k: int| 0 <= k <= a.len() && b == a.skip(k);
+    lemma_utf8len_skip(a, k);
+}
 pub proof fn lemma_suffix_drop(a: Seq<char>) requires a.len() > 0 ensures suffix(a, a.drop_first()) { assert(a.skip(1) =~= a.drop_first()); }
 
 // ---- src/lexer/cursor.rs ----
@@ -61,6 +70,17 @@ impl<'a> Cursor<'a> {
     pub closed spec fn fuel(&self) -> nat { self.chars.decrease().unwrap() }
     pub closed spec fn mark(&self) -> nat { self.len_remaining as nat }
     pub closed spec fn prev_spec(&self) -> char { self.prev }
+
+    pub fn new(input: &'a str) -> (r: Self)
+        ensures r.at_start(), r.rem() == input@
+    {
+        Self {
+            len_remaining: str_blen(input),   // X4: was input.len()
+            chars: input.chars(),
+            #[cfg(debug_assertions)]
+            prev: EOF_CHAR,
+        }
+    }
 
     fn first(&self) -> (r: char)
         ensures self.rem().len() > 0 ==> r == self.rem()[0], self.rem().len() == 0 ==> r == EOF_CHAR
@@ -92,8 +112,10 @@ impl<'a> Cursor<'a> {
         ensures final(self).inv(), final(self).mark() == old(self).mark(),
             r.is_none() ==> old(self).rem().len() == 0 && final(self).rem() == old(self).rem() && final(self).prev_spec() == old(self).prev_spec(),
             r.is_some() ==> final(self).prev_spec() == r.unwrap(),
+            suffix(old(self).rem(), final(self).rem()),
             r.is_some() ==> old(self).rem().len() > 0 && r.unwrap() == old(self).rem()[0] && final(self).rem() == old(self).rem().drop_first() && final(self).fuel() < old(self).fuel(),
     {
+        proof { assert(self.rem().skip(0) =~= self.rem()); assert(self.rem().len() > 0 ==> self.rem().skip(1) =~= self.rem().drop_first()); }
         let c = self.chars.next()?;
         #[cfg(debug_assertions)]
         {
@@ -162,7 +184,7 @@ impl Token {
     }
 }
 
-#[derive(Debug, Clone, Copy, PartialEq, Eq)]
+#[derive(Debug, Clone, Copy, PartialEq, Eq, Structural)]
 pub enum TokenKind {
     MetadataStart, TextStep, Colon, At, Hash, Tilde, Question, Plus, Minus, Slash, Star, And, Or, Eq, Percent,
     OpenBrace, CloseBrace, OpenParen, CloseParen, Dot,
@@ -197,7 +219,9 @@ impl Cursor<'_> {
             token.len == utf8len(old(self).rem()) - utf8len(final(self).rem()),
             (token.kind == TokenKind::Eof) == (old(self).rem().len() == 0),
             old(self).rem().len() > 0 ==> token.len >= 1,
+            old(self).rem().len() == 0 ==> final(self).rem() == old(self).rem() && token.len == 0,
     {
+        broadcast use {lemma_suffix_trans_b, lemma_suffix_len};
         let current = match self.bump() {
             Some(c) => c,
             None => return Token::new(TokenKind::Eof, 0),
@@ -258,10 +282,10 @@ impl Cursor<'_> {
         token
     }
 
-    fn line_comment(&mut self) -> TokenKind
-        requires old(self).inv(), old(self).mark() - utf8len(old(self).rem()) <= u32::MAX, old(self).mark() >= utf8len(old(self).rem()),
+    fn line_comment(&mut self) -> (r: TokenKind)
+        requires old(self).inv(), old(self).mark() <= u32::MAX,
             old(self).prev_spec() == '-', old(self).rem().len() > 0, old(self).rem()[0] == '-',
-        ensures final(self).inv(), final(self).mark() == old(self).mark(), suffix(old(self).rem(), final(self).rem()),
+        ensures final(self).inv(), final(self).mark() == old(self).mark(), suffix(old(self).rem(), final(self).rem()), r == TokenKind::LineComment,
     {
         debug_assert!(self.prev() == '-' && self.first() == '-');
         // this makes the next newline don't have the '\r' if on windows, but
@@ -270,19 +294,19 @@ impl Cursor<'_> {
         TokenKind::LineComment
     }
 
-    fn block_comment(&mut self) -> TokenKind
-        requires old(self).inv(), old(self).mark() - utf8len(old(self).rem()) <= u32::MAX, old(self).mark() >= utf8len(old(self).rem()),
+    fn block_comment(&mut self) -> (r: TokenKind)
+        requires old(self).inv(), old(self).mark() <= u32::MAX,
             old(self).prev_spec() == '[', old(self).rem().len() > 0, old(self).rem()[0] == '-',
-        ensures final(self).inv(), final(self).mark() == old(self).mark(), suffix(old(self).rem(), final(self).rem()),
+        ensures final(self).inv(), final(self).mark() == old(self).mark(), suffix(old(self).rem(), final(self).rem()), r == TokenKind::BlockComment,
     {
         debug_assert!(self.prev() == '[' && self.first() == '-');
         self.bump(); // '-'
-        proof { lemma_suffix_drop(old(self).rem()); }
+        broadcast use lemma_suffix_trans_b;
         while let Some(c) = self.bump()
             invariant self.inv(), self.mark() == old(self).mark(), suffix(old(self).rem(), self.rem()),
             decreases self.fuel()
         {
-            proof { assume(false); } // [probe] loop-body bookkeeping left for the implementation
+            broadcast use lemma_suffix_trans_b;
             match c {
                 '-' if self.first() == ']' => {
                     self.bump();
@@ -294,30 +318,30 @@ impl Cursor<'_> {
         TokenKind::BlockComment
     }
 
-    fn word(&mut self) -> TokenKind
-        requires old(self).inv(), old(self).mark() - utf8len(old(self).rem()) <= u32::MAX, old(self).mark() >= utf8len(old(self).rem()),
+    fn word(&mut self) -> (r: TokenKind)
+        requires old(self).inv(), old(self).mark() <= u32::MAX,
             old(self).mark() - utf8len(old(self).rem()) > 0,
-        ensures final(self).inv(), final(self).mark() == old(self).mark(), suffix(old(self).rem(), final(self).rem()),
+        ensures final(self).inv(), final(self).mark() == old(self).mark(), suffix(old(self).rem(), final(self).rem()), r == TokenKind::Word,
     {
         debug_assert!(self.pos_within_token() > 0); // at least one char
         self.eat_while(is_word_char);
         TokenKind::Word
     }
 
-    fn whitespace(&mut self) -> TokenKind
-        requires old(self).inv(), old(self).mark() - utf8len(old(self).rem()) <= u32::MAX, old(self).mark() >= utf8len(old(self).rem()),
+    fn whitespace(&mut self) -> (r: TokenKind)
+        requires old(self).inv(), old(self).mark() <= u32::MAX,
             ws_spec(old(self).prev_spec()),
-        ensures final(self).inv(), final(self).mark() == old(self).mark(), suffix(old(self).rem(), final(self).rem()),
+        ensures final(self).inv(), final(self).mark() == old(self).mark(), suffix(old(self).rem(), final(self).rem()), r == TokenKind::Whitespace,
     {
         debug_assert!(is_whitespace(self.prev()));
         self.eat_while(is_whitespace);
         TokenKind::Whitespace
     }
 
-    fn number(&mut self, c: char) -> TokenKind
-        requires old(self).inv(), old(self).mark() - utf8len(old(self).rem()) <= u32::MAX, old(self).mark() >= utf8len(old(self).rem()),
+    fn number(&mut self, c: char) -> (r: TokenKind)
+        requires old(self).inv(), old(self).mark() <= u32::MAX,
             '0' <= old(self).prev_spec() && old(self).prev_spec() <= '9',
-        ensures final(self).inv(), final(self).mark() == old(self).mark(), suffix(old(self).rem(), final(self).rem()),
+        ensures final(self).inv(), final(self).mark() == old(self).mark(), suffix(old(self).rem(), final(self).rem()), r == TokenKind::Int || r == TokenKind::ZeroInt,
     {
         debug_assert!(self.prev().is_ascii_digit());
         self.eat_while(|c| c.is_ascii_digit());
@@ -326,6 +350,95 @@ impl Cursor<'_> {
             TokenKind::ZeroInt
         } else {
             TokenKind::Int
+        }
+    }
+}
+
+
+// ---- src/span.rs ----
+#[derive(Clone, Copy, PartialEq, Eq)]
+pub struct Span {
+    start: usize,
+    end: usize,
+}
+impl Span {
+    pub closed spec fn s(&self) -> int { self.start as int }
+    pub closed spec fn e(&self) -> int { self.end as int }
+    pub(crate) fn new(start: usize, end: usize) -> (r: Self)
+        requires start <= end
+        ensures r.s() == start, r.e() == end
+    {
+        Self { start, end }
+    }
+}
+
+// ---- src/parser/token_stream.rs ----
+pub struct TokenStream<'i> {
+    cursor: Cursor<'i>,
+    consumed: usize,
+}
+
+#[derive(Clone, Copy, PartialEq, Eq)]
+pub struct PToken {   // parser::token_stream::Token (renamed only in this single-file probe)
+    pub kind: TokenKind,
+    pub span: Span,
+}
+
+impl<'i> TokenStream<'i> {
+    #[verifier::prophetic]
+    pub closed spec fn total(&self) -> int { self.consumed + utf8len(self.cursor.rem()) }
+    #[verifier::prophetic]
+    pub closed spec fn inv(&self) -> bool { self.cursor.at_start() && self.total() <= usize::MAX && utf8len(self.cursor.rem()) <= u32::MAX }
+    pub closed spec fn pos(&self) -> int { self.consumed as int }
+
+    pub fn new(input: &'i str) -> (r: Self)
+        requires utf8len(input@) <= u32::MAX
+        ensures r.inv(), r.pos() == 0, r.total() == utf8len(input@)
+    {
+        Self {
+            cursor: Cursor::new(input),
+            consumed: 0,
+        }
+    }
+
+    pub fn offset(&mut self, offset: usize)
+        requires old(self).inv(), old(self).total() + offset <= usize::MAX
+        ensures final(self).inv(), final(self).pos() == old(self).pos() + offset, final(self).total() == old(self).total() + offset
+    {
+        self.consumed += offset;
+    }
+
+    // X2: `impl Iterator for TokenStream<'_> { fn next }` as an inherent method
+    fn next(&mut self) -> (r: Option<PToken>)
+        requires old(self).inv()
+        ensures final(self).inv(), final(self).total() == old(self).total(),
+            r.is_some() ==> r.unwrap().span.s() == old(self).pos(),
+            r.is_some() ==> r.unwrap().span.e() == final(self).pos(),
+            r.is_some() ==> r.unwrap().span.s() < r.unwrap().span.e(),
+            r.is_some() ==> r.unwrap().span.e() <= old(self).total(),
+            r.is_none() ==> final(self).pos() == old(self).pos(),
+            r.is_none() ==> old(self).pos() == old(self).total(),
+    {
+        broadcast use lemma_suffix_len;
+        let t = self.cursor.advance_token();
+        proof { if t.kind == TokenKind::Eof { assert(utf8len(old(self).cursor.rem()) == 0); } }
+        let start = self.consumed;
+        self.consumed += t.len as usize;
+        proof {
+            assert(self.cursor.at_start());
+            assert(t.len as int == utf8len(old(self).cursor.rem()) - utf8len(self.cursor.rem()));
+            assert(self.consumed as int == old(self).consumed + t.len);
+            assert(self.total() == old(self).total());
+            if t.kind == TokenKind::Eof { assert(old(self).cursor.rem().len() == 0); assert(self.cursor.rem().len() == 0); assert(t.len == 0); }
+            else { assert(old(self).cursor.rem().len() > 0); assert(t.len >= 1); }
+        }
+        if t.kind == TokenKind::Eof && self.cursor.is_eof() {
+            None
+        } else {
+            Some(PToken {
+                kind: t.kind,
+                span: Span::new(start, self.consumed),
+            })
         }
     }
 }
